@@ -3,6 +3,7 @@ package main
 // rules_edom.go: evaluator dispatch rules decided by path enumeration (edom.go / absint.go).
 
 import (
+	"os"
 	"fmt"
 	"go/token"
 	"go/types"
@@ -11,7 +12,7 @@ import (
 )
 
 func init() {
-	register(&Rule{ID: "D-DISPATCH", Props: []string{"C01", "C17", "C02", "C05", "C20", "C09", "C06", "C19", "C18", "C16", "C10", "C12", "C13"}, Floor: 100,
+	register(&Rule{ID: "D-DISPATCH", Props: []string{"C01", "C17", "C02", "C05", "C20", "C09", "C06", "C19", "C18", "C16", "C10", "C12", "C13", "C14"}, Floor: 100,
 		Doc: "The evaluator's dispatcher, by path enumeration once per node type the parser builds (thin wrappers around the recursive evaluation inlined, helpers named by what they are, any source form): every node type has a case; a node implemented by a helper evaluates its children once each, in declaration order, against the enclosing current value and scope, and returns exactly the result of the one helper that implements it (negated only for !=), with no path that bypasses the helper; the current-node variant of a node calls the same helper with the current value in place of the evaluated child; pipe evaluates its right operand against the left result; && and || return one of their operands and ! the negated truth of its operand, all through the one truth predicate; literals return the stored value, @ the current value, $ the root; a variable is looked up in the scope and is an undefined-variable error when absent; let evaluates its bindings in the outer scope and only its body in the one child scope; no other scope is ever created or substituted.",
 		Run: ruleDDispatch})
 }
@@ -165,6 +166,11 @@ func ruleDDispatch(p *Program, r *Reporter) {
 		}
 		base, cur := nodeBase(n)
 		key := "node " + n
+		if os.Getenv("JMESCHECK_DEBUG_NODE") == n {
+			for _, pf := range nf.paths {
+				fmt.Fprintf(os.Stderr, "path %s: %s  [result=%s err=%s]\n", n, pf.Line, pf.Result, pf.Err)
+			}
+		}
 		st := nodeStruct(p, n)
 		var childFields []string
 		if st != nil {
@@ -366,6 +372,28 @@ func ruleDDispatch(p *Program, r *Reporter) {
 				r.OK(pos, key+" behaviour", "bindings evaluated in the outer scope, one child scope linked to it, result is the body's value")
 			}
 			continue
+		}
+		if base == "Negate" || base == "Not" || base == "AssertNumber" {
+			// a unary operator computes with the value of the operand it evaluated: once that child is evaluated, nothing
+			// on the path converts or tests the current value in its place
+			bad := ""
+			for _, pf := range succ {
+				if len(pf.Evals) == 0 {
+					continue
+				}
+				for _, c := range pf.Calls {
+					for _, a := range c.Args {
+						if a == "@" && bad == "" {
+							bad = pf.Line
+						}
+					}
+				}
+			}
+			if bad != "" {
+				r.Bad(pos, key+" operand", "after evaluating its operand the case hands the current value, not the operand's value, to a helper ("+bad+"): the operator is applied to the wrong value wherever the two differ")
+			} else {
+				r.OK(pos, key+" operand", "every helper the case calls after evaluating its operand is given the operand's value")
+			}
 		}
 		if inlineNodes[base] {
 			continue // data-level logic inside the dispatcher (merge, zip, not_null, negate, multi-selects): contexts checked above
